@@ -286,6 +286,13 @@ fn __collect(state: &State, possible_cycles: &PossibleCycles) {
         let mut root_list = LinkedList::new();
         let mut queue = LinkedQueue::new();
 
+        // A collection may be started from a finalizer, a destructor or a cleaning action run by Cc::drop,
+        // which sets the finalizing/dropping flags without setting collecting. Clear them during the
+        // tracing phases (the guards restore them afterwards), so that state::is_tracing() is true there.
+        #[cfg(feature = "finalization")]
+        let _finalizing_guard = replace_state_field!(finalizing, false, state);
+        let _dropping_guard = replace_state_field!(dropping, false, state);
+
         trace_counting(possible_cycles, &mut root_list, &mut non_root_list, &mut queue);
         trace_roots(root_list, &mut non_root_list, queue);
     }
